@@ -22,7 +22,7 @@ EXPLANATION = (
     "residuals, the augmenting amount is not changed inside the augmentation loop, cancellation plus forward push add "
     "up to the augmenting amount, and the flow value grows by it exactly once per augmentation; (O4) the returned "
     "dictionary holds exactly the positive entries of the flow map the loops wrote and the objective is the "
-    "accumulated value; parallel arcs are pooled on input; (O5) the only state the path search reads that changes between searches is the flow map, it enqueues under exactly `unvisited and residual > 0`, and every input arc enters the residual network. NOT decided: conservation/capacity as numeric facts, "
+    "accumulated value; parallel arcs are pooled on input; (O5) the only state the path search reads that changes between searches is the flow map, it enqueues under exactly `unvisited and residual > 0`, and every input arc enters the residual network. (O6) the degenerate query source == sink is rejected before the loop. NOT decided: conservation/capacity as numeric facts, "
     "max-flow = min-cut."
 )
 
@@ -102,6 +102,12 @@ def run(ctx: Ctx):
     t = ast.unparse(bfs.node)
     ctx.ob("C08-O2", "R21 search discipline", bfs, "search follows only arcs with positive residual to unvisited nodes, marks on enqueue, FIFO", "residual > 0" in t and "not in visited" in t and "visited.add(" in t and "popleft()" in t, "", node=bfs.node)
 
+    # the degenerate query source == sink is rejected (the search would return the one-node path for ever)
+    fcfg0 = cfg_of(f.node)
+    guard0 = [n for n in own_nodes(f.node) if isinstance(n, ast.If) and ast.unparse(n.test) in ("source == sink", "sink == source") and any(isinstance(x, ast.Raise) for x in n.body)]
+    loop0 = [n for n in own_nodes(f.node) if isinstance(n, ast.While) and any(isinstance(c, ast.Call) and ast.unparse(c.func) == "bfs" for c in ast.walk(n.test))]
+    ok0 = len(guard0) == 1 and bool(loop0) and fcfg0.dominates(fcfg0.stmt_node_containing(guard0[0].test), fcfg0.stmt_node_containing(loop0[0].test))
+    ctx.ob("C08-O6", "R22 STUTTER-FREE", f, "source == sink is rejected before the augmenting loop", ok0, "with source == sink the search finds the path [source] each time, the bottleneck stays infinite and nothing changes: the loop never ends", node=guard0[0] if guard0 else f.node)
     # O5 the search is a function of the current residual network only; every input arc enters that network
     from sa.guards import GuardView
 
@@ -230,6 +236,11 @@ def _v_no_cancel(tree):
     M.replace_stmt(g, lambda s: isinstance(s, ast.If) and M.src_is(s.test, "flow[v][u] > 0"), M.stmts("flow[u][v] += path_flow"))
 
 
+def _v_same_terminals_accepted(tree):
+    g = M.find_func(tree, "max_flow")
+    M.replace_stmt(g, lambda s: isinstance(s, ast.If) and M.src_is(s.test, "source == sink"), [])
+
+
 def _v_dead_end_memory(tree):
     g = M.find_func(tree, "max_flow")
     M.replace_stmt(g, lambda s: isinstance(s, ast.FunctionDef) and s.name == "bfs", lambda s: M.stmts("dead_ends = set()") + [s])
@@ -271,6 +282,7 @@ VARIANTS = [
     M.Variant("dead-end set remembered from one search to the next (seed C08-D)", FL, _v_dead_end_memory, "C08-O5"),
     M.Variant("arcs pruned by a source-reachability pre-pass that stops at zero-capacity arcs (seed C08-C)", FL, _v_prune_unreachable, "C08-O5"),
     M.Variant("reverse residual key created only the first time a node is seen (seed C08-E)", FL, _v_reverse_key_first_time_only, "C08-O1"),
+    M.Variant("source == sink is not rejected (original defect: the call never returns)", FL, _v_same_terminals_accepted, "C08-O6"),
     M.Variant("twin: reformat", FL, _t_reformat, None),
     M.Variant("twin: explicit symmetric adjacency sets iterated by the search", FL, _t_adj_sets, None),
 ]
